@@ -132,7 +132,7 @@ func historyCase(r *rand.Rand, hot int) Case {
 		tags = append(tags, "fns:local")
 	}
 	call.alt = chance(r, 0.5)
-	if slowOn && chance(r, 0.004) {
+	if slowOn && chance(r, 0.0015) {
 		// a validation that is under way for a long time (its first rule is a slow per-call function) while the other
 		// goroutines push hundreds of further types through the cache: the rest of its fields must still be judged
 		t = g.structType(2)
